@@ -26,12 +26,14 @@ def check_case(case):
     e = driver.eps_of(dtype)
     t0, tf = case["span"]
     d = 1.0 if tf > t0 else -1.0
-    T = [float(x) for x in a.t]
+    k0 = int(getattr(a, "_verif_skip", 0))          # rows of a first leg without events (round-trip cells): not judged
+    T = [float(x) for x in a.t][k0:]
     Eg = ec.grid_error(a, prob)
     hmax = max(abs(T[k + 1] - T[k]) for k in range(len(T) - 1)) if len(T) > 1 else 0.0
     matched = {}
     last = None
-    for idx, st in enumerate(a.events):
+    ev0 = int(getattr(a, "_verif_skip_events", 0))
+    for idx, st in enumerate(a.events[ev0:]):
         te = float(st.t)
         g = st.event
         sp = g.spec
@@ -48,7 +50,7 @@ def check_case(case):
         if case["dense"]:
             ref = np.asarray(a.sol(st.t), dtype=LD); dref = np.asarray(a.sol.grad(st.t), dtype=LD)
         else:
-            H = ec.hermite_from_rows(a, prob, k, dtype)
+            H = ec.hermite_from_rows(a, prob, k + k0, dtype)
             ref = np.asarray(H(st.t), dtype=LD); dref = np.asarray(H.grad(st.t), dtype=LD)
         ysc = max(1.0, float(np.max(np.abs(ref))))
         if ye.shape != ref.shape or float(np.max(np.abs(ye - ref))) > 64 * e * ysc:
